@@ -65,6 +65,10 @@ type fakeCache struct {
 	// injected informer faults: the next n RemoveEventHandler / GetInformer calls for a kind fail
 	failRemove map[gvkT]int
 	failGet    map[gvkT]int
+	// beforeRemove, if set, runs when the wrapped cache's RemoveInformer is entered (before the
+	// informer instance is stopped): the window between the tracking cache's bookkeeping and the
+	// removal itself
+	beforeRemove func(gvk gvkT)
 }
 
 // failNext plans informer faults for a kind.
@@ -131,6 +135,12 @@ func (f *fakeCache) RemoveInformer(_ context.Context, obj client.Object) error {
 	gvk, err := apiutil.GVKForObject(obj, f.scheme)
 	if err != nil {
 		return err
+	}
+	f.mu.Lock()
+	hook := f.beforeRemove
+	f.mu.Unlock()
+	if hook != nil {
+		hook(gvk)
 	}
 	f.mu.Lock()
 	defer f.mu.Unlock()
